@@ -56,8 +56,14 @@ pub unsafe extern "C" fn diplomat_free(ptr: *mut u8, size: usize, align: usize) 
 
 /// Whether a `&[u8]` is a `&str`
 /// # Safety
-/// - `ptr` and `size` must be a valid `&[u8]`
+/// - `ptr` and `size` must be a valid `&[u8]`, or `ptr` may be null if `size` is 0
+///   (e.g. a default-constructed C++ `std::string_view`)
 #[no_mangle]
 pub unsafe extern "C" fn diplomat_is_str(ptr: *const u8, size: usize) -> bool {
+    if ptr.is_null() {
+        // A null pointer is not a valid `&[u8]`, even of length 0; the empty string is valid UTF-8.
+        debug_assert!(size == 0);
+        return true;
+    }
     core::str::from_utf8(core::slice::from_raw_parts(ptr, size)).is_ok()
 }
